@@ -120,7 +120,8 @@ CHECKS = {
                  "nothing when no store returned a changeset; the pyproject/setup.cfg/setup.py writers against the dispatch clauses (dry-run, single file, "
                  "None => untouched). BOUNDED stand-in (not counted as proved): the real parser -> has_requirement -> writer chain on generated manifests "
                  "of all four formats against a reference reading (parses, declared kept, each new requirement once, declared already => untouched, "
-                 "second run adds nothing)."),
+                 "second run and a later codemod of the same run add nothing, undecodable manifests untouched), and the real CLI with two codemods "
+                 "needing one package on a project whose only manifest cannot be updated (exit 0, manifest untouched, no result claims an update)."),
         "note": "tomlkit / configparser / libcst serialisation is third-party and opaque to the engine: covered by the bounded stand-in only.",
         "design_ref": "DESIGN.md section 4 C14",
     },
